@@ -128,3 +128,89 @@ contract(AFDS + "._annotate_direct_instance_features_for_class", params={"a_clas
         "same_except(%s, old(%s), a_class)" % (CD, CD)]}},
     props=["C01", "C09"],
     note="one instance contributes exactly 1 to every (property, kind, cardinality) it exhibits in this class and to nothing else")
+
+# ---- inverse direction (C14): the twin of the counting step, on (object, property) with the kind of the SUBJECT ----------------------
+IEntry2 = Tup(List(Name), Feat, Feat)                    # (classes, direct features, inverse features)   [inverse strategy]
+IBox2 = box("IBox2", Dict(Name, IEntry2))
+Strat2 = schema("Strat2", [IRFS], {"_class_profiler": Profiler, "_i_dict": IBox2, "_shape_names_dict": Dict(Name, Name)})
+ID2 = "unboxed(self._i_dict)"
+contract(AFDS + "._get_shape_name_for_a_class@inv", params={"a_class": Name}, verify=False)
+CONTRACTS[IRFS + "._get_shape_name_for_a_class"] = CONTRACTS[AFDS + "._get_shape_name_for_a_class"]
+OKEY2 = ELEM_KEY.format("a_triple[2]")
+SKEY2 = ELEM_KEY.format("a_triple[0]")
+TYPE_S = ("ite(%s != %s, ite(has_class(a_triple[0], 'IRI'), 'IRI', 'BNode'), %s)" % (PK, PI, SKEY2))
+# by design only IRI subjects get shape kinds in the inverse direction (blank-node subjects are classified by kind only)
+SCLS = "%s[%s][0]" % (ID2, SKEY2)
+IS_SHAPE_OF_S = "(%s == 'IRI' and %s in %s and exists(Int, lambda j: 0 <= j and j < len(%s) and shape_name_of(%s[j]) == k))" % (TYPE_S, SKEY2, ID2, SCLS, SCLS)
+G_NEW = "%s[%s][2]" % (ID2, OKEY2)
+G_OLD = "old(%s[%s][2])" % (ID2, OKEY2)
+contract(IRFS + "._decide_type_elem", params={"original_elem": ANode, "str_prop": Name}, returns=Name, self_type=Strat2,
+    requires=CONTRACTS[AFDS + "._decide_type_elem"].requires, ensures=CONTRACTS[AFDS + "._decide_type_elem"].ensures, raises=[], verify=False, assume_only=True,
+    note="same function as in the direct strategy (verified there)")
+contract(IRFS + "._decide_shapes_elem", params={"str_elem": Name}, returns=List(Name), self_type=Strat2,
+    ensures=[e.replace(ID, ID2) for e in CONTRACTS[AFDS + "._decide_shapes_elem"].ensures], raises=[], props=["C14"],
+    note="the inherited function verified against the 3-component instance entries of the inverse strategy")
+contract(IRFS + "._introduce_needed_elements_in_shape_instances_dict_for_obj",
+    params={"str_obj": Name, "str_prop": Name, "type_subj": Name, "subj_shapes": List(Name)}, self_type=Strat2,
+    requires=["str_obj in %s" % ID2],
+    ensures=[e.replace(ID, ID2).replace("str_subj", "str_obj").replace("type_obj", "type_subj").replace("obj_shapes", "subj_shapes").replace("][1]", "][2]")
+             for e in CONTRACTS[AFDS + "._introduce_needed_elements_in_shape_instances_dict_for_subj"].ensures
+             if "][0] ==" not in e] + ["%s[str_obj][0] == old(%s[str_obj][0])" % (ID2, ID2), "%s[str_obj][1] == old(%s[str_obj][1])" % (ID2, ID2)],
+    raises=[], modifies=["IBox2.val[self._i_dict]"],
+    loops={0: {"invariant": [e.replace(ID, ID2).replace("str_subj", "str_obj").replace("type_obj", "type_subj").replace("obj_shapes", "subj_shapes").replace("][1]", "][2]")
+                             for e in CONTRACTS[AFDS + "._introduce_needed_elements_in_shape_instances_dict_for_subj"].loops[0]["invariant"] if "][0] ==" not in e]
+                            + ["%s[str_obj][0] == old(%s[str_obj][0])" % (ID2, ID2), "%s[str_obj][1] == old(%s[str_obj][1])" % (ID2, ID2)]}},
+    props=["C14"], note="twin of the direct helper: same clause text with the inverse component")
+contract(IRFS + "._annotate_target_object", params={"a_triple": Triple}, self_type=Strat2,
+    requires=[IS_PROP, SUBJ_NODE, OBJ_NODE, "%s in %s" % (OKEY2, ID2),
+              "implies(%s == %s, %s != 'IRI' and %s != 'BNode')" % (PK, PI, SKEY2, SKEY2),
+              "implies(%s in %s, forall(Int, Int, lambda j1, j2: implies(0 <= j1 and j1 < j2 and j2 < len(%s), shape_name_of(%s[j1]) != shape_name_of(%s[j2]))))" % (SKEY2, ID2, SCLS, SCLS, SCLS),
+              "forall(Name, lambda c: shape_name_of(c).startswith('%') and shape_name_of(c) != 'IRI' and shape_name_of(c) != 'BNode')"],
+    ensures=["forall(Name, lambda k: %s == old(%s) + ite(k == %s, 1, 0) + ite(%s, 1, 0))" % (get0(G_NEW, PK, "k"), get0("%s[%s][2]" % (ID2, OKEY2), PK, "k"), TYPE_S, IS_SHAPE_OF_S),
+             "same_except(%s, %s, %s)" % (G_NEW, G_OLD, PK),
+             "%s[%s][0] == old(%s[%s][0])" % (ID2, OKEY2, ID2, OKEY2),           # classes of the object untouched
+             "%s[%s][1] == old(%s[%s][1])" % (ID2, OKEY2, ID2, OKEY2),           # its OUTGOING features untouched (C14: direct part unchanged)
+             "same_except(%s, old(%s), %s)" % (ID2, ID2, OKEY2)],
+    raises=[], modifies=["IBox2.val[self._i_dict]"],
+    loops={0: {"invariant": [
+        "%s in %s" % (OKEY2, ID2), "str_prop in %s" % G_NEW, "type_subj in %s[str_prop]" % G_NEW,
+        "forall(Int, lambda j: implies(0 <= j and j < len(subj_shapes), subj_shapes[j] in %s[str_prop]))" % G_NEW,
+        "forall(Name, lambda k: %s == old(%s) + ite(k == type_subj, 1, 0) + ite(exists(Int, lambda j: 0 <= j and j < _i0 and subj_shapes[j] == k), 1, 0))"
+        % (get0(G_NEW, "str_prop", "k"), get0("%s[%s][2]" % (ID2, OKEY2), PK, "k")),
+        "same_except(%s, %s, str_prop)" % (G_NEW, G_OLD), "%s[%s][0] == old(%s[%s][0])" % (ID2, OKEY2, ID2, OKEY2),
+        "%s[%s][1] == old(%s[%s][1])" % (ID2, OKEY2, ID2, OKEY2), "same_except(%s, old(%s), %s)" % (ID2, ID2, OKEY2)]}},
+    props=["C14", "C01"],
+    note="inverse counting step = the direct step on the reversed triple (kind of the subject; shape kinds only for IRI subjects, by design); the object's outgoing features are not touched")
+
+# ---- C09: the counting step commutes (statement order is irrelevant for every counter) ------------------------------------------------
+def step_rel(DN, DO, T):
+    """the postcondition of _annotate_target_subject as a relation between two dictionary values and a triple"""
+    sk = ELEM_KEY.format(T + "[0]"); ok = ELEM_KEY.format(T + "[2]"); pk = T + "[1]._content"
+    type_o = ("ite(%s != pi_, ite(has_class(%s[2], 'IRI'), 'IRI', ite(has_class(%s[2], 'BNode'), 'BNode', %s[2]._elem_type)), %s)" % (pk, T, T, T, ok))
+    ocls = "%s[%s][0]" % (DN, ok)
+    shape_of_o = ("((%s == 'IRI' or %s == 'BNode') and %s in %s and exists(Int, lambda j: 0 <= j and j < len(%s) and shape_name_of(%s[j]) == k))"
+                  % (type_o, type_o, ok, DN, ocls, ocls))
+    return ["%s in %s and %s in %s" % (sk, DO, sk, DN),
+            "forall(Name, lambda k: %s == %s + ite(k == %s, 1, 0) + ite(%s, 1, 0))" % (get0("%s[%s][1]" % (DN, sk), pk, "k"), get0("%s[%s][1]" % (DO, sk), pk, "k"), type_o, shape_of_o),
+            "same_except(%s[%s][1], %s[%s][1], %s)" % (DN, sk, DO, sk, pk),
+            "%s[%s][0] == %s[%s][0]" % (DN, sk, DO, sk),
+            "same_except(%s, %s, %s)" % (DN, DO, sk)]
+IDict = Dict(Name, IEntry)
+lemma("pass2_steps_commute",
+      {"D0": IDict, "Da": IDict, "Dab": IDict, "Db": IDict, "Dba": IDict, "ta": Triple, "tb": Triple, "pi_": Name},
+      hyps=step_rel("Da", "D0", "ta") + step_rel("Dab", "Da", "tb") + step_rel("Db", "D0", "tb") + step_rel("Dba", "Db", "ta"),
+      goal="forall(Name, Name, Name, lambda x, p, k: implies(x in D0, %s == %s))" % (get0("Dab[x][1]", "p", "k"), get0("Dba[x][1]", "p", "k")),
+      props=["C09"],
+      note="two counting steps (contract of _annotate_target_subject) applied in either order give the same counters for every node, property and kind; "
+           "adjacent transpositions generate all permutations (standard)")
+lemma("pass2_steps_commute_domains",
+      {"D0": IDict, "Da": IDict, "Dab": IDict, "Db": IDict, "Dba": IDict, "ta": Triple, "tb": Triple, "pi_": Name},
+      hyps=step_rel("Da", "D0", "ta") + step_rel("Dab", "Da", "tb") + step_rel("Db", "D0", "tb") + step_rel("Dba", "Db", "ta"),
+      goal="forall(Name, lambda x: (x in Dab) == (x in Dba) and implies(x in D0, Dab[x][0] == Dba[x][0]))", props=["C09"],
+      note="same nodes and same class lists after either order")
+
+lemma("pass2_steps_commute@canary",
+      {"D0": IDict, "Da": IDict, "Dab": IDict, "Db": IDict, "Dba": IDict, "ta": Triple, "tb": Triple, "pi_": Name},
+      hyps=step_rel("Da", "D0", "ta") + step_rel("Dab", "Da", "tb") + step_rel("Db", "D0", "tb") + step_rel("Dba", "Db", "ta"),
+      goal="forall(Name, Name, Name, lambda x, p, k: implies(x in D0, %s == %s))" % (get0("Dab[x][1]", "p", "k"), get0("D0[x][1]", "p", "k")),
+      props=["C09"], canary=True, note="false claim (two steps change nothing) under the same hypotheses: must not be provable")
